@@ -513,6 +513,37 @@ fn reference_plan(job: &Job) -> SimPlan {
     SimPlan::single(job.clone(), vec![], &[0u8; 16], true, true)
 }
 
+/// The canonical environment is a *fresh process*: the job alone, first and
+/// only assembly of that process, keys = 0, fresh server, clock t0. (A
+/// reference computed inside the long-lived worker would share whatever
+/// process-wide state an earlier assembly initialised — a `OnceLock` table
+/// built from the first caller's parameters — and could not see it.)
+/// `sim ref-record` executes the reference plan and prints the record.
+pub fn reference_record(job: &Job, tmpdir: &str) -> Option<Record> {
+    use std::io::Write;
+    let exe = std::env::current_exe().ok()?;
+    let mut child = std::process::Command::new(exe)
+        .arg("ref-record")
+        .stdin(std::process::Stdio::piped())
+        .stdout(std::process::Stdio::piped())
+        .stderr(std::process::Stdio::null())
+        .spawn()
+        .ok()?;
+    {
+        let mut stdin = child.stdin.take()?;
+        let _ = stdin.write_all(serde_json::to_string(job).ok()?.as_bytes());
+    }
+    let out = child.wait_with_output().ok()?;
+    let _ = tmpdir;
+    let text = String::from_utf8_lossy(&out.stdout);
+    for line in text.lines() {
+        if let Some(rest) = line.strip_prefix("RECORD ") {
+            return serde_json::from_str::<Record>(rest).ok();
+        }
+    }
+    None
+}
+
 /// Several assemblies in one process through the real `FileServerReal`:
 /// a job, a same-names-different-content variant, the first job again.
 pub fn build_realfs_plan(rng: &mut Rng, seed: u64, c: &Corpus) -> SimPlan {
@@ -701,9 +732,19 @@ pub fn run(ctx: &mut Ctx, c: &Corpus) -> Vec<Replay> {
         if refs.contains_key(&jd) {
             continue;
         }
-        let res = ctx.exec(&reference_plan(job), "C10");
+        // the reference comes from a fresh process; if that process dies
+        // (a crash is C03's business) the job is skipped below
         ctx.stats.inc("reference_runs");
-        refs.insert(jd, res.runs[0].record.clone());
+        match reference_record(job, &ctx.verif) {
+            Some(r) => {
+                refs.insert(jd, r);
+            }
+            None => {
+                ctx.stats.inc("reference_process_failed");
+                let res = ctx.exec(&reference_plan(job), "C10");
+                refs.insert(jd, res.runs[0].record.clone());
+            }
+        }
     }
 
     let res = ctx.exec(&plan, "C10");
@@ -821,8 +862,15 @@ pub fn classify(r: &Replay) -> Vec<Violation> {
         if refs.contains_key(&jd) {
             continue;
         }
-        let res = crate::plan::run_plan(&reference_plan(job));
-        refs.insert(jd, res.runs[0].record.clone());
+        match reference_record(job, "") {
+            Some(r) => {
+                refs.insert(jd, r);
+            }
+            None => {
+                let res = crate::plan::run_plan(&reference_plan(job));
+                refs.insert(jd, res.runs[0].record.clone());
+            }
+        }
     }
     let res = crate::plan::run_plan(&r.plan);
     check_plan(&r.plan, &res, &refs)
